@@ -591,6 +591,14 @@ func (env *SpecEnv) field(e *Expr) (SpecVal, error) {
 			}
 		}
 	}
+	// a field of an element of a slice/array of structs: load the field, not the whole element
+	if e.Args[0].Kind == EIndex {
+		if addr, ty, aerr := env.addrOf(e); aerr == nil {
+			if v, lerr := vc.loadRaw(env.cur, addr, ty); lerr == nil {
+				return SpecVal{T: v, Ty: ty}, nil
+			}
+		}
+	}
 	x, err := env.Eval(e.Args[0])
 	if err != nil {
 		return SpecVal{}, err
